@@ -1244,6 +1244,10 @@ impl Wallet {
             });
             for key in unspent_slips {
                 let slip = self.slips.get(key).unwrap();
+                if slip.block_id < last_valid_slips_in_block_id {
+                    // slip is too old : it fell out of the genesis period (and is being rebroadcast)
+                    continue;
+                }
 
                 collected_from_unspent_slips += slip.amount;
 
